@@ -59,6 +59,10 @@ var (
 	opPktShAF  = MOp{K: "pkt", Pkt: "shortaf"}
 	opPktBig   = MOp{K: "pkt", Pkt: "big"}
 	opPktStale = MOp{K: "pkt", Pkt: "stalebig"}
+	opPktWrap  = MOp{K: "pkt", Pkt: "afwrap"}
+	opPktPriv0 = MOp{K: "pkt", Pkt: "priv0pkt"}
+	// caller adaptation field with the private-data flag set and zero-length data, multi-packet payload
+	opDataApr0 = MOp{K: "data", PID: 0x100, Len: 350, AF: "priv0"}
 	opPktAF252 = MOp{K: "pkt", Pkt: "af252"}
 	opAddMany  = MOp{K: "addmany", N: 40}
 	opRmMany   = MOp{K: "rmmany", N: 40}
@@ -68,7 +72,7 @@ var muxFullAlpha = []MOp{
 	opAddA, opAddB, opAddAuto, opRmA, opRmB, opRmX, opPcrA, opPcrB, opPcrX, opTables,
 	opDataA1, opDataAfit, opDataAs1, opDataAs2, opDataA3, opDataA17, opDataARAI, opDataAprv, opDataAnor, opDataAhdr,
 	opDataB1, opDataBRAI, opDataAuto, opDataX,
-	opPktNull, opPktAF, opPktShort, opPktBig, opPktStale, opPktAF252, opAddMany, opRmMany,
+	opPktNull, opPktAF, opPktShort, opPktBig, opPktStale, opPktWrap, opPktPriv0, opPktAF252, opDataApr0, opAddMany, opRmMany,
 }
 
 // A smaller alphabet for deeper searches.
@@ -108,9 +112,9 @@ func MuxScenarios(thorough bool) []MuxScenario {
 	}
 	sc = append(sc, MuxScenario{Name: "fix-data1-p50", Period: 50, Setup: setupA, Alpha: []MOp{opDataA1}, Depth: -1, Dedup: true})
 	// fixpoint scenarios: restricted alphabets run to closure (unbounded depth)
-	fixDepth := 9
+	fixDepth, readdDepth := 9, 7
 	if thorough {
-		fixDepth = -1
+		fixDepth, readdDepth = -1, 10
 	}
 	for _, p := range []int{1, 2, 3, 5, 40} {
 		if p > 3 && !thorough {
@@ -125,6 +129,7 @@ func MuxScenarios(thorough bool) []MuxScenario {
 		MuxScenario{Name: "fix-noroom-p2", Period: 2, Setup: setupA, Alpha: []MOp{opDataAnor, opDataA1, opTables}, Depth: -1, Dedup: true},
 		MuxScenario{Name: "fix-add-remove", Period: 40, Setup: setupA, Alpha: []MOp{opAddB, opRmB, opTables}, Depth: -1, Dedup: true},
 		MuxScenario{Name: "fix-readd-p1", Period: 1, Setup: setupA, Alpha: []MOp{opRmA, opAddA, opDataA1}, Depth: fixDepth, Dedup: true},
+		MuxScenario{Name: "readd-two-pids-p40", Period: 40, Setup: setupAB, Alpha: []MOp{opRmA, opAddA, opDataA1, opDataB1, opRmB, opAddB}, Depth: readdDepth, Dedup: true},
 	)
 	// the oversize closure is large (millions of states): depth-bounded in both tiers, placed last
 	overDepth := 9
